@@ -92,7 +92,7 @@ theorem processNode_at (tbl : UnitTable) (env : Env) (n : Node) (full : Str)
     (h : processNode tbl env { n with name := full, indent := 0 } = .ok env') :
     ∃ env'', processNode tbl env n = .ok env'' ∧ EqIL env''.nodes env'.nodes ∧
       env''.sources = env'.sources ∧ env''.units = env'.units ∧
-      env''.parents = regStackOf env.parents n.indent n.name := by
+      env''.parents = regStackOf env.parents n.indent n.name ∧ env''.srcUnits = env'.srcUnits := by
   have hu : unitCheck tbl { n with name := full, indent := 0 } = unitCheck tbl n := rfl
   unfold processNode at h ⊢
   rw [hu] at h
@@ -106,7 +106,7 @@ theorem processNode_at (tbl : UnitTable) (env : Env) (n : Node) (full : Str)
     by_cases hg : n.kw = .group
     · simp only [hg, if_true, Except.ok.injEq] at h ⊢
       subst h
-      exact ⟨_, rfl, rfl, rfl, rfl, rfl⟩
+      exact ⟨_, rfl, rfl, rfl, rfl, rfl, rfl⟩
     · simp only [hg, if_false] at h ⊢
       have hsv := setValue_indent { n with name := full } 0
       simp only at hsv
@@ -124,14 +124,14 @@ theorem processNode_at (tbl : UnitTable) (env : Env) (n : Node) (full : Str)
           | some ns =>
             simp only [Except.ok.injEq] at h ⊢
             subst h
-            exact ⟨_, rfl, rfl, rfl, rfl, rfl⟩
+            exact ⟨_, rfl, rfl, rfl, rfl, rfl, rfl⟩
           | none =>
             simp only at h ⊢
             by_cases hk : n2.kw = .mod
             · simp [hk] at h
             · simp only [hk, if_false, Except.ok.injEq] at h ⊢
               subst h
-              refine ⟨_, rfl, ?_, rfl, rfl, rfl⟩
+              refine ⟨_, rfl, ?_, rfl, rfl, rfl, rfl⟩
               simp [EqIL, strip]
 
 theorem injectValue_keeps (env : Env) (n x : Node) (h : injectValue env n = .ok x) :
@@ -154,7 +154,7 @@ theorem step_at (tbl : UnitTable) (env : Env) (n : Node) (full : Str) (hk : n.kw
     (hreg : regNameOf env.parents n.indent n.name = full) (env' : Env)
     (h : step tbl env (.node { n with name := full, indent := 0 }) = .ok env') :
     ∃ env'', step tbl env (.node n) = .ok env'' ∧ EqIL env''.nodes env'.nodes ∧
-      env''.sources = env'.sources ∧ env''.units = env'.units := by
+      env''.sources = env'.sources ∧ env''.units = env'.units ∧ env''.srcUnits = env'.srcUnits := by
   have hk0 : ({ n with name := full, indent := 0 } : Node).kw ≠ .imp := hk
   simp only [step, hk0, if_false] at h
   rw [injectValue_at env n full] at h
@@ -163,8 +163,8 @@ theorem step_at (tbl : UnitTable) (env : Env) (n : Node) (full : Str) (hk : n.kw
   | ok x =>
     simp only [hi] at h
     obtain ⟨hxn, hxi, _⟩ := injectValue_keeps env n x hi
-    obtain ⟨env'', hp, h1, h2, h3, _⟩ := processNode_at tbl env x full (by rw [hxn, hxi]; exact hreg) env' h
-    exact ⟨env'', by simp [step, hk, hi, hp], h1, h2, h3⟩
+    obtain ⟨env'', hp, h1, h2, h3, _, h5⟩ := processNode_at tbl env x full (by rw [hxn, hxi]; exact hreg) env' h
+    exact ⟨env'', by simp [step, hk, hi, hp], h1, h2, h3, h5⟩
 
 /-- a group line only changes the hierarchy -/
 def groupNode (i : Nat) (nm : Str) : Node := { blank nm .group with indent := i }
